@@ -337,3 +337,63 @@ def string_fn(fn: str, i: int, j: int, n: int):
     p.track_line(line)
     p._consider_line(line)
     return p.variables.get("r")
+
+
+# ------------------------------------------------------------------ O1r row-level existence functions on ragged rows
+ROWFN = {
+    "all": ("all()", lambda n, e0, e1, e2: n == 2 and not e0 and not e1),
+    "missing": ("missing()", lambda n, e0, e1, e2: not (n == 2 and not e0 and not e1)),
+    "all-list": ("all(#a, #b)", lambda n, e0, e1, e2: n >= 2 and not e0 and not e1),
+    "any-headers": ("any(headers())", lambda n, e0, e1, e2: (n >= 1 and not e0) or (n >= 2 and not e1) or (n >= 3 and not e2)),
+}
+
+
+def row_oracle(fn, n, e0, e1, e2) -> bool:
+    return bool(ROWFN[fn][1](n, e0, e1, e2))
+
+
+@ob(
+    "C01",
+    "O1-row-functions",
+    pre=["1 <= n <= 3"],
+    post="_ == row_oracle(fn, n, e0, e1, e2)",
+    bound="headers [a, b]; a data row of symbolic length 1..3 (shorter, equal, longer than the header row) whose cells are empty or "
+    "not by symbolic flags; all(), missing(), all(#a, #b), any(headers()) against docs/functions/all.md and any.md (all(): the "
+    "number of headers and row columns must be equal and every header must have a value)",
+    outside="rows of more than 3 cells; cells that are blanks only",
+    encodes=ENC + ["csvpath/matching/functions/boolean/all.py:All._decide_match/all_exist", "csvpath/matching/functions/boolean/any.py"],
+    tiers={"quick": {"timeout": 600, "shards": product(fn=list(ROWFN))}},
+)
+def row_fn(fn: str, n: int, e0: bool, e1: bool, e2: bool) -> bool:
+    cells = ["" if e0 else "x", "" if e1 else "y", "" if e2 else "z"]
+    line = cells[:n]
+    p, pr = fresh("$SYM[1*][ %s ]" % ROWFN[fn][0], [["a", "b"], ["1", "2"]])
+    p.track_line(["a", "b"])
+    p.track_line(line)
+    return p._consider_line(line)
+
+
+NUMS = ["5", "20", "90", "100", "7", "1000"]
+BETW = {
+    "between": ("between(#0, #1, #2)", lambda me, a, b: min(a, b) < me < max(a, b)),
+    "from_to": ("from_to(#0, #1, #2)", lambda me, a, b: min(a, b) <= me <= max(a, b)),
+    "between-vars": ("@lo = #1  @hi = #2  between(#0, @lo, @hi)", lambda me, a, b: min(a, b) < me < max(a, b)),
+}
+
+
+@ob(
+    "C01",
+    "O1-between-cells",
+    pre=["0 <= i < 6 and 0 <= j < 6 and 0 <= k < 6"],
+    post="_ == bool(BETW[fn][1](int(NUMS[i]), int(NUMS[j]), int(NUMS[k])))",
+    bound="between / from_to over three numeric cells (and over variables assigned from cells) picked by symbolic indexes from "
+    "6 decimal texts of 1 to 4 digits: the comparison is numeric whatever the digit counts and the order of the bounds",
+    outside="other numerals; dates",
+    encodes=ENC + ["csvpath/matching/functions/boolean/between.py:Between._decide_match/_try_numbers/_order/_compare"],
+    tiers={"quick": {"timeout": 900, "shards": product(fn=list(BETW))}},
+)
+def between_cells(fn: str, i: int, j: int, k: int) -> bool:
+    p, pr = fresh("$SYM[*][ %s ]" % BETW[fn][0], [["h", "i", "j"], ["1", "2", "3"]])
+    line = [NUMS[i], NUMS[j], NUMS[k]]
+    p.track_line(line)
+    return p._consider_line(line)
